@@ -159,3 +159,18 @@ def random_response(sysobj: Sys, N, seed, noise=0.01, channels=None):
         Y += 2 * np.real(np.outer(z, P[:, k]))
     Y += noise * rng.normal(size=Y.shape) * (np.std(Y) + 1e-12)
     return Y
+
+
+def obs_index(case_sys, channels, rtol=1e-4, pmax=None):
+    """smallest number p of block rows [C; CA; ...; CA^(p-1)] (outputs = channels) with numerical rank 2m"""
+    S = Sys(case_sys)
+    n = 2 * S.m
+    pmax = pmax or n + 1
+    for p in range(1, pmax + 1):
+        O, _, _ = S.observability(p, channels=channels)
+        if O.shape[0] < n:
+            continue
+        sv = np.linalg.svd(O, compute_uv=False)
+        if sv[n - 1] > rtol * sv[0]:
+            return p
+    return None
